@@ -11,6 +11,7 @@ import (
 	"mellium.im/xmlstream"
 	"mellium.im/xmpp"
 	"mellium.im/xmpp/crypto"
+	"mellium.im/xmpp/form"
 	"mellium.im/xmpp/mux"
 	"mellium.im/xmpp/stanza"
 )
@@ -117,4 +118,17 @@ func (c *Caps) UnmarshalXML(d *xml.Decoder, start xml.StartElement) error {
 		}
 	}
 	return xmlstream.Skip(d)
+}
+
+// capsFormType returns the FORM_TYPE of an extended service discovery
+// information form for the purpose of computing the verification string: the
+// character data of the first <value/> of the field named FORM_TYPE as it
+// appeared on the wire, regardless of the type of the field or of any value
+// that has been set on the form since.
+// It is empty if the form has no such field or the field has no value.
+func capsFormType(f *form.Data) string {
+	if vals, ok := f.Raw("FORM_TYPE"); ok && len(vals) > 0 {
+		return vals[0]
+	}
+	return ""
 }
